@@ -331,8 +331,8 @@ def main(tier):
             chk.violation("a second singleton child written after other children (%s) is accepted | document:\n%s" % (k, t),
                           {"kind": "fault", "fault": {"f": "dup_child", "i": 0, "x": k}, "via": "kernel", "doc": [], "main": t, "files": {}, "sites": [1],
                            "block_spans": [[0, len(t)]], "observed": o, "signature": sig}, sig)
-    # Tags without a parameter / naming an undeclared tag, at every level; where the URL-level list is never consulted (every
-    # method has its own Tags, or the URL has no method) the signature is that of F-20
+    # Tags without a parameter / naming an undeclared tag, at every level, also where the URL-level list is never consulted (every
+    # method has its own Tags, or the URL has no method: finding F-20, repaired)
     tk = {}
     for fault, par in (("missing_param", ""), ("undefined", " @znotag")):
         tk[(fault, "http_method", "used")] = "JSIGHT 0.3\nGET /zt\n  Tags%s\n  200 any\n" % par
